@@ -89,11 +89,17 @@ def run_impl(case):
     store = {} if kind == 'dict' else LRU(case.get('size', 2), evlog) if kind == 'lru' else {}
     inv = []
 
+    none_inv = {}          # key -> invocation whose result was None (None carries no tag of its own)
+
     async def f(*args, **kwargs):
         inv.append((args, dict(kwargs)))
+        n = len(inv) - 1
         await asyncio.sleep(0)
-        # every other result is falsy: a cached value is a value whatever its truth value
-        return (FalsyRes if len(inv) % 2 else tuple)(('r', len(inv) - 1))
+        # a cached value is a value whatever it is: a third of the results are falsy, a third are None
+        if n % 3 == 2:
+            none_inv[(args, frozenset(kwargs.items()))] = n
+            return None
+        return (FalsyRes if n % 3 else tuple)(('r', n))
     g = threadsafe_async_cache(f, cache=store) if kind != 'default' else threadsafe_async_cache(f)
     rets = []
     ops_model = []
@@ -105,7 +111,7 @@ def run_impl(case):
                 kwargs = {n: mk_value(c, v) for n, (c, v) in op[1][1]}
                 before = len(evlog)
                 r = loop.run_until_complete(g(*args, **kwargs))
-                rets.append(r[1])
+                rets.append(r[1] if r is not None else none_inv.get((args, frozenset(kwargs.items()))))
                 ops_model.append('c:' + enc_sig(op[1]))
                 for (_, key) in evlog[before:]:
                     ops_model.append('e:' + enc_key(key))
